@@ -21,7 +21,17 @@ type subTask interface {
 type subscriptions []Subscription
 
 func (s subscriptions) applyTo(d *subscriptions) {
-	*d = append(*d, s...)
+L_SUB:
+	for _, sub := range s {
+		for i := range *d {
+			if (*d)[i].Topic == sub.Topic {
+				// Subscribing an established topic replaces its QoS.
+				(*d)[i].QoS = sub.QoS
+				continue L_SUB
+			}
+		}
+		*d = append(*d, sub)
+	}
 }
 
 type unsubscriptions []string
@@ -29,8 +39,8 @@ type unsubscriptions []string
 func (s unsubscriptions) applyTo(d *subscriptions) {
 	l := len(*d)
 	for _, topic := range s {
-		for i, e := range *d {
-			if e.Topic == topic {
+		for i := 0; i < l; i++ {
+			if (*d)[i].Topic == topic {
 				l--
 				(*d)[i] = (*d)[l]
 				break
